@@ -94,7 +94,8 @@ let print_scope buf uid (s : scope) =
 
 let bs x = if x then "1" else "0"
 
-(* operand expressions of Deep2_C04: (0) literal  (1) this  (2 x) local x  (3 x e) assignment to x  (4 a b) binary *)
+(* operand expressions of Deep2_C04: (0) literal  (1) this  (2 x) local x  (3 x e) assignment to x  (4 a b) binary
+   (5 o) o.p  (6 o k) o[k]  (7 a b) two sub-expressions in sequence  (8 c a b) conditional *)
 let rec ex_of (s : sx) : ex =
   match s with
   | L [A 0] -> Lit Z0
@@ -102,6 +103,10 @@ let rec ex_of (s : sx) : ex =
   | L [A 2; A x] -> Loc (nat_of_int x)
   | L [A 3; A x; e] -> Asg (nat_of_int x, ex_of e)
   | L [A 4; a; b'] -> Bin (ex_of a, ex_of b')
+  | L [A 5; o] -> Mem (ex_of o)
+  | L [A 6; o; k] -> Idx (ex_of o, ex_of k)
+  | L [A 7; a; b'] -> Seq (ex_of a, ex_of b')
+  | L [A 8; c; a; b'] -> Cond (ex_of c, ex_of a, ex_of b')
   | _ -> failwith "ex"
 
 let decision (line : string) : string =
